@@ -1,6 +1,381 @@
-//! C01 — harness module not built yet.
+//! C01 — supply: no over-mint, no re-mint, exact remaining count (vending family).
+//! Histories interleave Mint / MintTo / MintFor / Shuffle / Purge / BurnRemaining by
+//! several senders until (and past) sell-out on all six vending minters; the monitors
+//! evaluate the property text on the real contracts' answers; every minter step is
+//! also printed for the Coq model (corr/SaleCorr.v).
+use crate::util::*;
+use crate::w_sale::*;
 use crate::Args;
-pub fn run(_a: &Args) {
-    eprintln!("C01: harness module not built yet");
-    std::process::exit(2);
+use serde::{Deserialize, Serialize};
+use std::collections::{BTreeMap, BTreeSet};
+
+#[derive(Clone, Debug, Serialize, Deserialize)]
+pub struct Case {
+    pub variant: usize,
+    pub updatable: bool,
+    pub num_tokens: u32,
+    pub pal: u32,
+    pub price: u128,
+    pub ops: Vec<Op>,
+}
+
+fn cfg_of(c: &Case) -> SaleCfg {
+    let mut cfg = SaleCfg::basic(c.variant);
+    cfg.updatable_collection = c.updatable;
+    cfg.num_tokens = c.num_tokens;
+    cfg.pal = c.pal;
+    cfg.price = c.price;
+    cfg.start_in_secs = 100;
+    cfg
+}
+
+pub struct CaseResult {
+    pub coq: Option<String>,
+    pub steps: u64,
+    pub ok_steps: u64,
+    pub violations: Vec<(String, String)>, // (key, what)
+    pub hist: BTreeMap<String, u64>,
+}
+
+fn op_kind(op: &Op) -> &'static str {
+    match op {
+        Op::At { .. } => "at",
+        Op::Mint { .. } => "mint",
+        Op::MintM { .. } => "mint_merkle",
+        Op::MintTo { .. } => "mint_to",
+        Op::MintFor { .. } => "mint_for",
+        Op::Purge { .. } => "purge",
+        Op::Shuffle { .. } => "shuffle",
+        Op::BurnRemaining { .. } => "burn_remaining",
+        Op::UpdateMintPrice { .. } => "update_mint_price",
+        Op::UpdateStartTime { .. } => "update_start_time",
+        Op::UpdateStartTradingTime { .. } => "update_start_trading_time",
+        Op::UpdatePerAddressLimit { .. } => "update_per_address_limit",
+        Op::SetWhitelist { .. } => "set_whitelist",
+        Op::UpdateDiscountPrice { .. } => "update_discount_price",
+        Op::RemoveDiscountPrice { .. } => "remove_discount_price",
+        Op::SudoParams { .. } => "sudo_params",
+        Op::WlAddMember { .. } => "wl_add_member",
+    }
+}
+
+pub fn run_case(c: &Case) -> CaseResult {
+    let mut res = CaseResult { coq: None, steps: 0, ok_steps: 0, violations: vec![], hist: BTreeMap::new() };
+    let mut w = match SaleWorld::new(cfg_of(c)) {
+        Ok(w) => w,
+        Err(e) => {
+            *res.hist.entry(format!("{}:create:err", VARIANTS[c.variant].name)).or_insert(0) += 1;
+            let _ = e;
+            return res;
+        }
+    };
+    let vname = w.v.name;
+    let n = c.num_tokens as u64;
+    let init = w.init_state_coq();
+    let init_bal = w.balances_coq();
+    let mut steps = vec![];
+    // ---- monitor state (property text, independent of the model) ----
+    let mut minted: BTreeSet<u64> = BTreeSet::new();
+    let mut burned: u64 = 0;
+    let mut burn_done = false;
+    let init_ids: BTreeSet<u32> = w.positions().iter().map(|p| p.1).collect();
+    if init_ids != (1..=c.num_tokens).collect::<BTreeSet<u32>>() || w.mintable() != n {
+        res.violations.push(("C01:initial-table".into(), format!("{}: initial ids/count are not 1..={}", vname, n)));
+    }
+    for op in &c.ops {
+        let before_pos = w.positions();
+        let before_mintable = w.mintable();
+        let out = w.run(op);
+        if !out.is_minter_step {
+            continue;
+        }
+        res.steps += 1;
+        if out.ok {
+            res.ok_steps += 1;
+        }
+        *res.hist.entry(format!("{}:{}:{}", vname, op_kind(op), if out.ok { "ok" } else { "err" })).or_insert(0) += 1;
+        if let Some(s) = out.coq {
+            steps.push(s);
+        }
+        if let Some(e) = &out.err {
+            if e.starts_with("STATE-CHANGED-ON-FAILURE") {
+                res.violations.push(("C01:failed-call-changed-state".into(), format!("{}: {:?}: {}", vname, op, e)));
+            }
+        }
+        let after_pos = w.positions();
+        let after_mintable = w.mintable();
+        let is_mint = matches!(op, Op::Mint { .. } | Op::MintTo { .. } | Op::MintFor { .. });
+        if is_mint && out.ok {
+            if before_mintable == 0 {
+                res.violations.push(("C01:mint-at-zero".into(), format!("{}: {:?} succeeded with mintable count 0", vname, op)));
+            }
+            if burn_done {
+                res.violations.push(("C01:mint-after-burn".into(), format!("{}: {:?} succeeded after burn-remaining", vname, op)));
+            }
+            match &out.minted {
+                Some((id, owner)) => {
+                    if *id < 1 || *id > n {
+                        res.violations.push(("C01:id-out-of-range".into(), format!("{}: minted id {} outside 1..={}", vname, id, n)));
+                    }
+                    if !minted.insert(*id) {
+                        res.violations.push(("C01:id-minted-twice".into(), format!("{}: id {} minted twice", vname, id)));
+                    }
+                    if let Op::MintFor { token_id, .. } = op {
+                        if *id != *token_id as u64 {
+                            res.violations.push(("C01:mint-for-wrong-id".into(), format!("{}: MintFor({}) delivered {}", vname, token_id, id)));
+                        }
+                    }
+                    let want_owner = match op {
+                        Op::Mint { who, .. } => who.clone(),
+                        Op::MintTo { recipient, .. } | Op::MintFor { recipient, .. } => recipient.clone(),
+                        _ => unreachable!(),
+                    };
+                    if owner.as_deref() != Some(want_owner.as_str()) {
+                        res.violations.push(("C01:wrong-owner".into(), format!("{}: token {} owned by {:?}, expected {}", vname, id, owner, want_owner)));
+                    }
+                }
+                None => res.violations.push(("C01:mint-without-token".into(), format!("{}: {:?} succeeded but no token id reported", vname, op))),
+            }
+        }
+        if matches!(op, Op::Shuffle { .. }) && out.ok {
+            let mut a: Vec<u32> = before_pos.iter().map(|p| p.1).collect();
+            let mut b: Vec<u32> = after_pos.iter().map(|p| p.1).collect();
+            let ka: Vec<u32> = before_pos.iter().map(|p| p.0).collect();
+            let kb: Vec<u32> = after_pos.iter().map(|p| p.0).collect();
+            a.sort();
+            b.sort();
+            if a != b || ka != kb || before_mintable != after_mintable {
+                res.violations.push(("C01:shuffle-changed-set".into(), format!("{}: shuffle changed the remaining ids or their number", vname)));
+            }
+        }
+        if matches!(op, Op::BurnRemaining { .. }) && out.ok {
+            burned += before_pos.len() as u64;
+            burn_done = true;
+        }
+        // counter identity after every step
+        if after_mintable + minted.len() as u64 + burned != n {
+            res.violations.push((
+                "C01:count-identity".into(),
+                format!("{}: after {:?}: mintable {} + minted {} + burned {} != num_tokens {}", vname, op, after_mintable, minted.len(), burned, n),
+            ));
+        }
+        if after_pos.len() as u64 != after_mintable {
+            res.violations.push(("C01:table-size".into(), format!("{}: {} positions stored but mintable count {}", vname, after_pos.len(), after_mintable)));
+        }
+        if res.violations.len() > 5 {
+            break;
+        }
+    }
+    // collection agrees with the trace
+    let toks: BTreeSet<u64> = w.all_tokens().iter().map(|t| t.parse().unwrap_or(0)).collect();
+    if toks != minted || w.num_tokens_collection() != minted.len() as u64 {
+        res.violations.push(("C01:collection-mismatch".into(), format!("{}: collection holds {:?}, trace minted {:?}", vname, toks, minted)));
+    }
+    res.coq = Some(case_coq(&mut w, &init, &init_bal, &steps));
+    res
+}
+
+fn gen_case(rng: &mut Rng, variant: usize, thorough: bool) -> Case {
+    let sizes: &[u32] = if thorough { &[1, 2, 3, 7, 49, 50, 51, 52, 99, 100, 101, 130] } else { &[1, 2, 5, 12, 50, 51, 60] };
+    let num_tokens = *rng.pick(sizes);
+    let pal = if num_tokens < 100 { rng.range(1, 3) as u32 } else { rng.range(1, 4) as u32 };
+    let price = *rng.pick(&[50u128, 100, 101, 1000]);
+    let mut ops = vec![];
+    let native = |a: u128| vec![(NATIVE.to_string(), a)];
+    // before start: a public mint must fail, airdrops work
+    if rng.chance(1, 2) {
+        ops.push(Op::Mint { who: BUYERS[0].into(), funds: native(price) });
+        ops.push(Op::MintTo { who: CREATOR.into(), recipient: BUYERS[1].into(), funds: vec![] });
+    }
+    ops.push(Op::At { secs: 200, nanos: 0 });
+    let len = if thorough { rng.range(30, 90) } else { rng.range(20, 50) } as usize + num_tokens.min(60) as usize;
+    let mut burn_budget = if rng.chance(1, 3) { 1 } else { 0 };
+    for i in 0..len {
+        // time moves on (the pick depends on the block height)
+        if rng.chance(1, 3) {
+            ops.push(Op::At { secs: 201 + i as u64, nanos: rng.below(1000) as i64 });
+        }
+        let who_any = *rng.pick(&[BUYERS[0], BUYERS[1], BUYERS[2], STRANGER, CREATOR]);
+        let op = match rng.below(100) {
+            0..=34 => Op::Mint { who: (*rng.pick(&[BUYERS[0], BUYERS[1], BUYERS[2], STRANGER])).into(), funds: native(price) },
+            35..=59 => Op::MintTo {
+                who: if rng.chance(9, 10) { CREATOR.into() } else { who_any.into() },
+                recipient: (*rng.pick(&[BUYERS[0], BUYERS[1], STRANGER])).into(),
+                funds: vec![],
+            },
+            60..=77 => {
+                let id = match rng.below(10) {
+                    0 => 0,
+                    1 => num_tokens + 1,
+                    _ => rng.range(1, num_tokens as u64) as u32,
+                };
+                Op::MintFor {
+                    who: if rng.chance(9, 10) { CREATOR.into() } else { who_any.into() },
+                    token_id: id,
+                    recipient: (*rng.pick(&[BUYERS[0], BUYERS[2]])).into(),
+                    funds: vec![],
+                }
+            }
+            78..=89 => Op::Shuffle { who: who_any.into(), funds: if rng.chance(5, 6) { native(500) } else { native(499) } },
+            90..=94 => Op::Purge { who: who_any.into() },
+            _ => {
+                if burn_budget > 0 && i > len / 2 {
+                    burn_budget -= 1;
+                    Op::BurnRemaining { who: CREATOR.into() }
+                } else {
+                    Op::BurnRemaining { who: STRANGER.into() }
+                }
+            }
+        };
+        ops.push(op);
+    }
+    // after the end: everything that could create a token must fail at 0 / after burn
+    ops.push(Op::MintTo { who: CREATOR.into(), recipient: BUYERS[0].into(), funds: vec![] });
+    ops.push(Op::Mint { who: STRANGER.into(), funds: native(price) });
+    ops.push(Op::MintFor { who: CREATOR.into(), token_id: 1, recipient: BUYERS[0].into(), funds: vec![] });
+    ops.push(Op::Shuffle { who: STRANGER.into(), funds: native(500) });
+    ops.push(Op::Purge { who: STRANGER.into() });
+    Case { variant, updatable: rng.chance(1, 4), num_tokens, pal, price, ops }
+}
+
+/// curated minimal histories (always run first)
+fn corpus() -> Vec<Case> {
+    let native = |a: u128| vec![(NATIVE.to_string(), a)];
+    let mut v = vec![];
+    for variant in 0..6 {
+        // sell out 2 tokens by mint-for in reverse order, then every creator of tokens must fail
+        v.push(Case {
+            variant,
+            updatable: false,
+            num_tokens: 2,
+            pal: 2,
+            price: 100,
+            ops: vec![
+                Op::At { secs: 200, nanos: 0 },
+                Op::MintFor { who: CREATOR.into(), token_id: 2, recipient: BUYERS[0].into(), funds: vec![] },
+                Op::MintFor { who: CREATOR.into(), token_id: 2, recipient: BUYERS[0].into(), funds: vec![] },
+                Op::Shuffle { who: STRANGER.into(), funds: native(500) },
+                Op::Mint { who: BUYERS[1].into(), funds: native(100) },
+                Op::Mint { who: BUYERS[1].into(), funds: native(100) },
+                Op::MintTo { who: CREATOR.into(), recipient: BUYERS[2].into(), funds: vec![] },
+                Op::Purge { who: STRANGER.into() },
+                Op::BurnRemaining { who: CREATOR.into() },
+            ],
+        });
+        // burn with tokens left, then nothing mints
+        v.push(Case {
+            variant,
+            updatable: false,
+            num_tokens: 5,
+            pal: 3,
+            price: 100,
+            ops: vec![
+                Op::At { secs: 200, nanos: 0 },
+                Op::Mint { who: BUYERS[0].into(), funds: native(100) },
+                Op::BurnRemaining { who: STRANGER.into() },
+                Op::BurnRemaining { who: CREATOR.into() },
+                Op::Mint { who: BUYERS[0].into(), funds: native(100) },
+                Op::MintTo { who: CREATOR.into(), recipient: BUYERS[2].into(), funds: vec![] },
+                Op::MintFor { who: CREATOR.into(), token_id: 3, recipient: BUYERS[0].into(), funds: vec![] },
+                Op::BurnRemaining { who: CREATOR.into() },
+            ],
+        });
+        // burn-remaining with 1, 2, 3 tokens left (both parities), then a mint-for and a shuffle must fail
+        for left in 1..=3u32 {
+            v.push(Case {
+                variant,
+                updatable: false,
+                num_tokens: left + 1,
+                pal: 2,
+                price: 100,
+                ops: vec![
+                    Op::At { secs: 200, nanos: 0 },
+                    Op::MintTo { who: CREATOR.into(), recipient: BUYERS[0].into(), funds: vec![] },
+                    Op::BurnRemaining { who: CREATOR.into() },
+                    Op::MintFor { who: CREATOR.into(), token_id: 1, recipient: BUYERS[0].into(), funds: vec![] },
+                    Op::MintFor { who: CREATOR.into(), token_id: 2, recipient: BUYERS[0].into(), funds: vec![] },
+                    Op::Shuffle { who: STRANGER.into(), funds: native(500) },
+                    Op::Purge { who: STRANGER.into() },
+                ],
+            });
+        }
+        // shuffle with 1..=9 tokens left keeps the id set (each table size once)
+        v.push(Case {
+            variant,
+            updatable: false,
+            num_tokens: 9,
+            pal: 3,
+            price: 100,
+            ops: {
+                let mut o = vec![Op::At { secs: 200, nanos: 0 }];
+                for k in 0..9u64 {
+                    o.push(Op::Shuffle { who: BUYERS[(k % 3) as usize].into(), funds: native(500) });
+                    o.push(Op::At { secs: 201 + k, nanos: 7 });
+                    o.push(Op::MintTo { who: CREATOR.into(), recipient: BUYERS[1].into(), funds: vec![] });
+                }
+                o
+            },
+        });
+    }
+    v
+}
+
+pub fn run(a: &Args) {
+    let out = OutDir::new(&a.out);
+    let mut rep = Report { property: "C01".into(), tier: a.tier.clone(), seed: a.seed, ..Default::default() };
+    let cases: Vec<Case> = if let Some(p) = &a.replay {
+        #[derive(Deserialize)]
+        struct ReplayFile {
+            case: Case,
+        }
+        let rf: ReplayFile = serde_json::from_str(&std::fs::read_to_string(p).expect("replay file")).expect("replay json");
+        vec![rf.case]
+    } else {
+        let mut rng = Rng::new(a.seed);
+        let mut v = corpus();
+        let per_variant = if a.thorough() { 40 } else { 5 };
+        for variant in 0..6 {
+            for _ in 0..per_variant {
+                v.push(gen_case(&mut rng, variant, a.thorough()));
+            }
+        }
+        v
+    };
+    let mut coq_cases = vec![];
+    let mut nviol = 0;
+    let mut distinct = BTreeSet::new();
+    for (i, c) in cases.iter().enumerate() {
+        let r = run_case(c);
+        rep.evaluations += r.steps;
+        for (k, v) in &r.hist {
+            *rep.histogram.entry(k.clone()).or_insert(0) += v;
+        }
+        if r.ok_steps > 0 {
+            distinct.insert(format!("{:?}", c));
+            rep.distinct_nontrivial += r.ok_steps;
+        }
+        for (key, what) in r.violations.iter().take(3) {
+            nviol += 1;
+            if nviol <= 20 {
+                let body = format!(
+                    "{{\n \"property\": \"C01\",\n \"case\": {},\n \"violation\": {}\n}}\n",
+                    serde_json::to_string(c).unwrap(),
+                    serde_json::to_string(what).unwrap()
+                );
+                let path = out.write_replay(&format!("C01-{}.json", nviol), &body);
+                rep.violations.push(Violation { key: key.clone(), what: what.clone(), replay: path });
+            }
+        }
+        if rep.samples.len() < 3 && i % 7 == 0 {
+            rep.samples.push(serde_json::json!({"variant": VARIANTS[c.variant].name, "num_tokens": c.num_tokens,
+                "first_ops": c.ops.iter().take(8).map(|o| format!("{:?}", o)).collect::<Vec<_>>(), "steps": r.steps, "ok_steps": r.ok_steps}));
+        }
+        if let Some(cq) = r.coq {
+            coq_cases.push(cq);
+        }
+    }
+    rep.rule = "histories of Mint/MintTo/MintFor/Shuffle/Purge/BurnRemaining by buyers, stranger and admin on each of the six vending minters (num_tokens around the 50-position window and the sell-out), corpus first; evaluations = minter steps executed on the real contracts; distinct_nontrivial = steps that succeeded (state-changing) in distinct histories".into();
+    out.write_cases("C01", "From LP Require Import Num Pay Sg1 Bank MinterVending SaleCorr.", "scase", "sale_check", &coq_cases, 6, &mut rep);
+    out.finish(&rep);
+    println!("C01 harness: {} cases, {} steps, {} monitor violations", cases.len(), rep.evaluations, nviol);
 }
